@@ -284,3 +284,186 @@ Proof. eexists. eexists. vm_compute. repeat split; reflexivity. Qed.
 Lemma abs_refuted_interval :
   exists i, interval_make par_a par_b true = Ok i /\ d_N (i_dur i) = - (2700 * MEG) /\ dur_in_minutes (i_dur i) = Ok (-45).
 Proof. eexists. vm_compute. repeat split; reflexivity. Qed.
+
+(* ------------------------------------------------------------------ 3b. native operands of __sub__ / __rsub__ *)
+From PV Require Import Proofs.C02Facts.
+
+(* a stdlib aware datetime that denotes a valid local time keeps its fields and its instant through the normalisation *)
+Lemma normalise_native_valid : forall o o', e_native o = true -> e_dt o = true -> aware o = true -> e_canon o <> 0 ->
+  (e_fixed o = true -> exists off, e_zone o = fixed_zone off) ->
+  ~ wall_skipped (e_zone o) (sec (e_W o)) ->
+  normalise_operand o = Ok o' ->
+  e_native o' = false /\ e_dt o' = true /\ aware o' = true /\ e_obj o' = e_canon o /\ e_zone o' = e_zone o /\
+  e_W o' = e_W o /\ ep_inst o' = ep_inst o.
+Proof.
+  intros o o' Hn Hd Ha Hc Hfx Hsk. unfold normalise_operand, instance_ep. rewrite Hn, Hd, Ha. cbn [negb].
+  unfold create. destruct (e_fixed o) eqn:Efx.
+  - destruct (Hfx eq_refl) as [off Hz]. unfold convert_naive_fixed. cbn [bind]. intros H. inversion H. subst o'. clear H.
+    unfold ep_inst, aware. cbn [e_native e_dt e_obj e_zone e_W e_fold]. rewrite Ha. unfold aware in Ha.
+    assert (E : negb (e_canon o =? 0) = true) by lia. rewrite E.
+    repeat split; auto. rewrite Hz. unfold inst. rewrite !fixed_zone_local. reflexivity.
+  - unfold convert_naive. unfold wall_skipped in Hsk.
+    destruct (off_local (e_zone o) (sec (e_W o)) true >? off_local (e_zone o) (sec (e_W o)) false) eqn:G; [lia|].
+    rewrite andb_false_r. cbn [bind]. intros H. inversion H. subst o'. clear H.
+    unfold ep_inst, aware. cbn [e_native e_dt e_obj e_zone e_W e_fold]. unfold aware in Ha. rewrite Ha.
+    assert (E : negb (e_canon o =? 0) = true) by lia. rewrite E. repeat split; auto.
+Qed.
+
+(* pendulum - native and native - pendulum: the float round trip of exactly the difference of the instants, as CPython reads the native value *)
+Lemma sub_native_roundtrip : forall self o i, e_dt self = true -> aware self = true ->
+  e_native o = true -> e_dt o = true -> aware o = true -> e_canon o <> 0 ->
+  (e_fixed o = true -> exists off, e_zone o = fixed_zone off) ->
+  ~ wall_skipped (e_zone o) (sec (e_W o)) ->
+  (dt_sub self o = Ok i -> td_of_float_seconds (total_seconds (ep_inst self - ep_inst o)) = Ok (d_N (i_dur i))) /\
+  (dt_rsub self o = Ok i -> td_of_float_seconds (total_seconds (ep_inst o - ep_inst self)) = Ok (d_N (i_dur i))).
+Proof.
+  intros self o i Hd Ha Hn Hdo Hao Hc Hfx Hsk. split; intros H.
+  - unfold dt_sub, dt_diff in H. apply bind_ok' in H. destruct H as [o' [Ho H]].
+    destruct (normalise_native_valid o o' Hn Hdo Hao Hc Hfx Hsk Ho) as (_ & D' & A' & _ & _ & _ & I').
+    rewrite <- I'. apply (interval_length_roundtrip o' self i D' Hd A' Ha H).
+  - unfold dt_rsub, dt_diff in H. apply bind_ok' in H. destruct H as [o' [Ho H]].
+    destruct (normalise_native_valid o o' Hn Hdo Hao Hc Hfx Hsk Ho) as (_ & D' & A' & _ & _ & _ & I').
+    rewrite <- I'. apply (interval_length_roundtrip self o' i Hd D' Ha A' H).
+Qed.
+
+(* a pendulum operand is used as is *)
+Lemma sub_pendulum : forall self o, e_native o = false ->
+  dt_sub self o = interval_make o self false /\ dt_rsub self o = interval_make self o false.
+Proof. intros self o H. unfold dt_sub, dt_rsub, dt_diff, normalise_operand. rewrite H. split; reflexivity. Qed.
+
+(* a stdlib value on a SKIPPED wall time is first moved by the gap (C02): its instant becomes wall - utcoffset(other fold),
+   i.e. it differs from CPython's reading of the same value by exactly the length of the gap *)
+Lemma normalise_native_skipped : forall o o', e_native o = true -> e_dt o = true -> aware o = true -> e_canon o <> 0 ->
+  e_fixed o = false -> wf2_zone (e_zone o) = true -> wall_skipped (e_zone o) (sec (e_W o)) ->
+  normalise_operand o = Ok o' ->
+  ep_inst o' = e_W o - MEG * off_local (e_zone o) (sec (e_W o)) (negb (e_fold o)) /\
+  ep_inst o' - ep_inst o = (if e_fold o then 1 else -1) * MEG * (off_local (e_zone o) (sec (e_W o)) true - off_local (e_zone o) (sec (e_W o)) false).
+Proof.
+  intros o o' Hn Hd Ha Hc Hfx Hwf Hsk. unfold normalise_operand, instance_ep. rewrite Hn, Hd, Ha, Hfx. cbn [negb].
+  unfold create. intros H. apply bind_ok' in H. destruct H as [[W' f'] [Hcv H]]. inversion H. subst o'. clear H.
+  destruct (create_skipped (e_zone o) (e_W o) Hwf Hsk) as (Hg & Hup & Hdown & Oup & Odown & Sup & Sdown).
+  cbv zeta in *.
+  unfold ep_inst at 1 3. unfold aware at 1 3. cbn [e_obj e_zone e_W e_fold].
+  assert (E : negb (e_canon o =? 0) = true) by lia. rewrite E.
+  unfold ep_inst. rewrite Ha.
+  unfold convert_naive in Hcv. unfold wall_skipped in Hsk.
+  destruct (off_local (e_zone o) (sec (e_W o)) true >? off_local (e_zone o) (sec (e_W o)) false) eqn:G; [|lia].
+  destruct (e_fold o) eqn:Ef; cbn [negb].
+  - destruct (wall_in_range (e_W o + MEG * (off_local (e_zone o) (sec (e_W o)) true - off_local (e_zone o) (sec (e_W o)) false))); [|discriminate].
+    inversion Hcv. subst W' f'. unfold inst. fold (sec (e_W o + MEG * (off_local (e_zone o) (sec (e_W o)) true - off_local (e_zone o) (sec (e_W o)) false))).
+    rewrite Sup, Oup. fold (sec (e_W o)). lia.
+  - destruct (wall_in_range (e_W o + MEG * (off_local (e_zone o) (sec (e_W o)) false - off_local (e_zone o) (sec (e_W o)) true))) eqn:R; [|discriminate].
+    inversion Hcv. subst W' f'. unfold inst.
+    replace (e_W o + MEG * (off_local (e_zone o) (sec (e_W o)) false - off_local (e_zone o) (sec (e_W o)) true))
+      with (e_W o - MEG * (off_local (e_zone o) (sec (e_W o)) true - off_local (e_zone o) (sec (e_W o)) false)) by lia.
+    fold (sec (e_W o - MEG * (off_local (e_zone o) (sec (e_W o)) true - off_local (e_zone o) (sec (e_W o)) false))).
+    rewrite Sdown, Odown. fold (sec (e_W o)). lia.
+Qed.
+
+(* ------------------------------------------------------------------ 4. the float part *)
+(* premises (DESIGN 3.3 fallback): stated on the SpecFloat model, not proved; validated on every run by the correspondence + integer oracle *)
+Definition SPAN_MAX : Z := 3652061 * 86400000000.     (* any two instants of valid wall values: the calendar range plus one day of offset on each side *)
+Definition float_roundtrip_exact_below_2_33 : Prop :=
+  forall N, Z.abs N < B33 -> td_of_float_seconds (total_seconds N) = Ok N.
+Definition float_roundtrip_within_64 : Prop :=
+  forall N, Z.abs N <= SPAN_MAX -> exists M, td_of_float_seconds (total_seconds N) = Ok M /\ Z.abs (M - N) <= 64.
+Definition float_div_trunc_exact (unit : Z) : Prop :=
+  forall N, Z.abs N < B33 -> py_int_trunc (fdiv (total_seconds N) (sf_of_Z unit)) = Ok (Z.quot N (unit * 1000000)).
+
+Section FloatPremises.
+  Hypothesis Hrt : float_roundtrip_exact_below_2_33.
+
+  Lemma length_exact_partial : forall a b i, e_dt a = true -> e_dt b = true -> aware a = true -> aware b = true ->
+    interval_make a b false = Ok i -> Z.abs (ep_inst b - ep_inst a) < B33 ->
+    d_N (i_dur i) = ep_inst b - ep_inst a.
+  Proof.
+    intros a b i Ha Hb Aa Ab H Hlt. destruct (interval_length_roundtrip a b i Ha Hb Aa Ab H) as [R _].
+    rewrite (Hrt _ Hlt) in R. inversion R. reflexivity.
+  Qed.
+
+  Lemma length_exact_abs_partial : forall a b i, e_dt a = true -> e_dt b = true -> aware a = true -> aware b = true ->
+    order_agrees a b -> interval_make a b true = Ok i -> Z.abs (ep_inst b - ep_inst a) < B33 ->
+    d_N (i_dur i) = Z.abs (ep_inst b - ep_inst a).
+  Proof.
+    intros a b i Ha Hb Aa Ab Ho H Hlt. pose proof (interval_length_roundtrip_abs a b i Ha Hb Aa Ab Ho H) as R.
+    rewrite Hrt in R by lia. inversion R. reflexivity.
+  Qed.
+
+  Lemma length_exact_naive_date_partial : forall a b i, (e_dt a = false \/ (aware a = false /\ aware b = false)) ->
+    interval_make a b false = Ok i -> Z.abs (e_W b - e_W a) < B33 -> d_N (i_dur i) = e_W b - e_W a.
+  Proof.
+    intros a b i Hc H Hlt. pose proof (interval_length_roundtrip_naive_date a b i Hc H) as R.
+    rewrite (Hrt _ Hlt) in R. inversion R. reflexivity.
+  Qed.
+
+  Lemma swap_negates_length_partial : forall a b i j, e_dt a = true -> e_dt b = true -> aware a = true -> aware b = true ->
+    interval_make a b false = Ok i -> interval_make b a false = Ok j -> Z.abs (ep_inst b - ep_inst a) < B33 ->
+    d_N (i_dur j) = - d_N (i_dur i).
+  Proof.
+    intros a b i j Ha Hb Aa Ab Hi Hj Hlt.
+    rewrite (length_exact_partial a b i Ha Hb Aa Ab Hi Hlt).
+    rewrite (length_exact_partial b a j Hb Ha Ab Aa Hj) by lia. lia.
+  Qed.
+
+  Lemma sub_native_exact_partial : forall self o i, e_dt self = true -> aware self = true ->
+    e_native o = true -> e_dt o = true -> aware o = true -> e_canon o <> 0 ->
+    (e_fixed o = true -> exists off, e_zone o = fixed_zone off) ->
+    ~ wall_skipped (e_zone o) (sec (e_W o)) -> Z.abs (ep_inst self - ep_inst o) < B33 ->
+    (dt_sub self o = Ok i -> d_N (i_dur i) = ep_inst self - ep_inst o) /\
+    (dt_rsub self o = Ok i -> d_N (i_dur i) = ep_inst o - ep_inst self).
+  Proof.
+    intros self o i Hd Ha Hn Hdo Hao Hc Hfx Hsk Hlt.
+    destruct (sub_native_roundtrip self o i Hd Ha Hn Hdo Hao Hc Hfx Hsk) as [S R].
+    split; intros H; [apply S in H | apply R in H]; rewrite Hrt in H by lia; inversion H; reflexivity.
+  Qed.
+
+  (* truncation: needs in addition that int(N/10^6 / unit) is exact (Hsplit of C09 for seconds, Hdiv for minutes / hours) *)
+  Section Trunc.
+    Hypothesis Hsplit : float_split_exact_on_D9.
+    Hypothesis Hdiv60 : float_div_trunc_exact 60.
+    Hypothesis Hdiv3600 : float_div_trunc_exact 3600.
+
+    Lemma in_units_trunc_partial : forall a b i, e_dt a = true -> e_dt b = true -> aware a = true -> aware b = true ->
+      interval_make a b false = Ok i -> Z.abs (ep_inst b - ep_inst a) < B33 ->
+      let D := ep_inst b - ep_inst a in
+      dur_in_seconds (i_dur i) = Ok (Z.quot D 1000000) /\
+      dur_in_minutes (i_dur i) = Ok (Z.quot D 60000000) /\
+      dur_in_hours (i_dur i) = Ok (Z.quot D 3600000000).
+    Proof.
+      intros a b i Ha Hb Aa Ab H Hlt D.
+      pose proof (length_exact_partial a b i Ha Hb Aa Ab H Hlt) as EN. fold D in EN.
+      destruct (interval_length_roundtrip a b i Ha Hb Aa Ab H) as [_ Habs].
+      assert (Hlt' : Z.abs (d_N (i_dur i)) < B33) by (rewrite EN; exact Hlt).
+      split; [|split].
+      - rewrite (in_seconds_partial Hsplit (i_dur i) Habs Hlt'). rewrite EN. reflexivity.
+      - unfold dur_in_minutes, dur_total_minutes, dur_total_seconds. rewrite Habs.
+        change C_SECONDS_PER_MINUTE with 60. rewrite (Hdiv60 _ Hlt'). rewrite EN. reflexivity.
+      - unfold dur_in_hours, dur_total_hours, dur_total_seconds. rewrite Habs.
+        change C_SECONDS_PER_HOUR with 3600. rewrite (Hdiv3600 _ Hlt'). rewrite EN. reflexivity.
+    Qed.
+  End Trunc.
+End FloatPremises.
+
+Section Float64.
+  Hypothesis H64 : float_roundtrip_within_64.
+  Lemma length_64_partial : forall a b i, e_dt a = true -> e_dt b = true -> aware a = true -> aware b = true ->
+    interval_make a b false = Ok i -> Z.abs (ep_inst b - ep_inst a) <= SPAN_MAX ->
+    Z.abs (d_N (i_dur i) - (ep_inst b - ep_inst a)) <= 64.
+  Proof.
+    intros a b i Ha Hb Aa Ab H Hle. destruct (interval_length_roundtrip a b i Ha Hb Aa Ab H) as [R _].
+    destruct (H64 _ Hle) as [M [HM Hd]]. rewrite HM in R. inversion R. subst M. exact Hd.
+  Qed.
+End Float64.
+
+(* Z.quot is truncation toward zero *)
+Lemma quot_is_trunc : forall D u, 0 < u ->
+  Z.abs (Z.quot D u) * u <= Z.abs D < (Z.abs (Z.quot D u) + 1) * u /\ (0 <= D -> 0 <= Z.quot D u) /\ (D <= 0 -> Z.quot D u <= 0).
+Proof.
+  intros D u Hu. pose proof (Z.quot_rem D u ltac:(lia)) as E.
+  pose proof (Z.rem_bound_abs D u ltac:(lia)) as B.
+  destruct (Z_le_gt_dec 0 D) as [Hp|Hn].
+  - pose proof (Z.rem_nonneg D u ltac:(lia) Hp). pose proof (Z.quot_pos D u Hp Hu). repeat split; try nia.
+  - pose proof (Z.rem_nonpos D u ltac:(lia) ltac:(lia)). pose proof (Z.quot_neg D u).
+    assert (Z.quot D u <= 0). { rewrite <- (Z.opp_involutive D). rewrite Z.quot_opp_l by lia. pose proof (Z.quot_pos (-D) u ltac:(lia) Hu). lia. }
+    repeat split; try nia.
+Qed.
